@@ -122,6 +122,20 @@ func checkBounds(what string, b *geom.Bounds, wantLayout geom.Layout, r ref) err
 	return nil
 }
 
+// rewrite maps every ordinate x of every leaf geometry to -x-1, in place.
+func rewrite(t geom.T) {
+	if gc, ok := t.(*geom.GeometryCollection); ok {
+		for _, m := range gc.Geoms() {
+			rewrite(m)
+		}
+		return
+	}
+	fc := t.FlatCoords()
+	for i := range fc {
+		fc[i] = -fc[i] - 1
+	}
+}
+
 var std = []geom.Layout{geom.XY, geom.XYZ, geom.XYM, geom.XYZM}
 
 func genGeom(t *rapid.T, layouts []geom.Layout, depth int, floats int) *model.G {
@@ -235,7 +249,23 @@ func prop(c Case) error {
 		if !g.Empty() && !g.IsCollection() && b.IsEmpty() {
 			return fmt.Errorf("%s with coordinates: Bounds().IsEmpty() = true", g.Kind)
 		}
-		return checkPolygon(b)
+		if err := checkPolygon(b); err != nil {
+			return err
+		}
+		// the bounds are those of the coordinates as they are now: every ordinate is
+		// rewritten in place (x -> -x-1 swaps the roles of minimum and maximum) and the
+		// bounds asked for again, on the same object
+		rewrite(t)
+		g2, err := model.FromGeom(t)
+		if err != nil {
+			return fmt.Errorf("harness: geometry ill formed after rewriting ordinates: %v", err)
+		}
+		r2 := ref{}
+		r2.addGeom(g2)
+		if err := checkBounds(g.Kind+".Bounds() after its ordinates were rewritten in place", t.Bounds(), g.ReportedLayout(), r2); err != nil {
+			return err
+		}
+		return nil
 	case "extend":
 		var ts []geom.T
 		for i := range c.Gs {
